@@ -256,7 +256,8 @@ Definition pl_model_step (wl : nat) (k : pl_case) (s : pstate) (st : pstep) : ps
             && N.eqb (so_err o) (if sk_panic sk then 3 else if sk_err sk then 2 else 0)
             && results_eqb (sk_staged sk) (so_staged o) && results_eqb (sk_inelig sk) (so_inelig o)
             && list_eqb key3_eqb (map r_key (sk_props sk)) (so_props o) && enq_eqb (sk_enq sk) (so_enq o)
-            && (match sk_enq sk with [] => true | _ => Z.eqb (so_tq o) (last_time t done) end) in
+            (* the post-processors run after the last batch has completed; their sinks may take time (a slow store) *)
+            && (match sk_enq sk with [] => true | _ => Z.leb (last_time t done) (so_tq o) end) in
           mkPS c' cnt' q' (ps_mis s || negb same) (ps_und s)
       end
   | SDeq t n got =>
